@@ -84,11 +84,25 @@ macro_rules
       | (apply NP_bind; intro _ _)
       | split)
 
-theorem interactionLine_NP (nt : List (String × Nat)) (kind : Kind) (dih : Bool) (sectRaw line : String)
-    (c : Ctx) : NP c (interactionLine nt kind dih sectRaw line c) := by
-  unfold interactionLine
+theorem interactionCore_NP (nt : List (String × Nat)) (kind : Kind) (sectRaw line : String)
+    (c : Ctx) : NP c (interactionCore nt kind sectRaw line c) := by
+  unfold interactionCore
   dsimp only [Option.pure_def, Option.bind_eq_bind, Option.bind_some, Option.bind_none]
   repeat' np_step
+
+theorem interactionLine_NP (nt : List (String × Nat)) (kind : Kind) (dih : Bool) (sectRaw line : String)
+    (c : Ctx) : NP c (interactionLine nt kind dih sectRaw line c) := by
+  intro c' h
+  unfold interactionLine at h
+  cases hc : interactionCore nt kind sectRaw line c with
+  | none => rw [hc] at h; cases h
+  | some c1 =>
+    rw [hc] at h
+    have h1 := interactionCore_NP nt kind sectRaw line c c1 hc
+    cases h
+    split
+    · exact h1
+    · exact h1
 
 
 theorem linkAtomLine_NP (defaults : Attrs) (line : String) (c : Ctx) :
